@@ -450,7 +450,31 @@ macro_rules! subj_seq {
         }
     )*}
 }
-subj_seq!(Vec, push; VecDeque, push_back; LinkedList, push_back);
+subj_seq!(Vec, push; LinkedList, push_back);
+
+impl<T: Subject> Subject for VecDeque<T> {
+    fn gen(rng: &mut Rng) -> Self {
+        // build the ring buffer so that it is often wrapped (two non-empty slices)
+        let n = small_len(rng);
+        let mut v = VecDeque::with_capacity(n.max(1));
+        let front = rng.below(n as u64 + 1) as usize;
+        for _ in 0..(n - front) {
+            v.push_back(T::gen(rng))
+        }
+        for _ in 0..front {
+            v.push_front(T::gen(rng))
+        }
+        if n > 0 && rng.chance(1, 4) {
+            let x = v.pop_front().unwrap();
+            v.push_back(x)
+        }
+        v
+    }
+    fn same(&self, o: &Self) -> bool { self.len() == o.len() && self.iter().zip(o.iter()).all(|(a, b)| a.same(b)) }
+    fn show(&self) -> String { show_seq("VecDeque", self.len(), self.iter()) }
+    fn refused(&self) -> bool { self.iter().any(|x| x.refused()) }
+    fn item(&self) -> Option<Item> { seq_item(self.iter()) }
+}
 
 impl<T: Subject + Ord + Clone> Subject for BinaryHeap<T> {
     fn gen(rng: &mut Rng) -> Self {
